@@ -8,13 +8,43 @@ From GD Require Import C06.Convert C01.Field C01.Read C01.Inst C01.ReadProofs C0
 Import ListNotations.
 Local Open Scope Z_scope.
 
-(* The full statement (kept visible):
+(* Source variants: v0 = before any repair proposed here (history), vc = the
+   frozen tree (C01-1/2/4, C16-1/3/4 applied; C01-3 and C16-2 not), v1 = all.
+
+   The full statement (kept visible):
    read_matches_spec_statement v :=
      forall A db f rt s n, wf db f -> 0 <= s -> 0 <= n ->
-       impl_read A db v rt f s n = Some (spec_window A db rt f s n).
-   It is false of the unrepaired code. *)
-Theorem read_matches_spec_refuted : ~ read_matches_spec_statement v0.
+       impl_read A db v rt f s n = Some (spec_window A db rt f s n). *)
+
+(* it is still false of the frozen tree: padding before the frame offset follows
+   the native type (open finding getdata/raw-bof-pad-native-type) *)
+Theorem read_matches_spec_refuted : ~ read_matches_spec_statement vc.
+Proof. exact statement_refuted_current. Qed.
+
+(* history: the pre-repair source (unaligned starts) *)
+Theorem read_matches_spec_refuted_before_repairs : ~ read_matches_spec_statement v0.
 Proof. exact statement_refuted. Qed.
+
+(* THE theorem for the frozen tree (flags v_align, v_alloc0): for every field
+   without MPLEX and EVERY window -- unaligned starts, mixed rates, before sample
+   zero, n = 0 -- the read is the specified window unless it reaches native-type
+   padding of a RAW leaf. *)
+Theorem read_matches_spec_current :
+  forall (A : Alg) (db : database) (v : variant) (f : field) (rt : ctype) (s n : Z),
+    v_align v = true -> v_alloc0 v = true -> wf db f -> mplex_free f -> 0 <= n ->
+    ~ In TRawPad (uncovered A db v rt f s n) ->
+    impl_read A db v rt f s n = Some (spec_window A db rt f s n).
+Proof. exact read_ok_current. Qed.
+
+(* sample k does not depend on how a window is split into two reads *)
+Theorem window_split_independent :
+  forall (A : Alg) (db : database) (v : variant) (f : field) (rt : ctype) (s a b : Z) (X Y : list (V A)),
+    wf db f -> 0 <= a -> 0 <= b ->
+    covered A db v rt f s (a + b) -> covered A db v rt f s a -> covered A db v rt f (s + a) b ->
+    impl_read A db v rt f s a = Some X -> zlen X = a ->
+    impl_read A db v rt f (s + a) b = Some Y ->
+    impl_read A db v rt f s (a + b) = Some (X ++ Y).
+Proof. exact window_split. Qed.
 
 (* On the covered region -- every source variant, field type, nesting depth,
    sample rates, window and value algebra -- gd_getdata returns exactly the
